@@ -47,6 +47,8 @@ type act struct {
 	asLabel   string
 	asKEK     []byte
 	sKey      []byte // SNwkSIntKey of the running session (rejoin 0/2 MIC)
+	padMethod int    // with padTotal > 0: the request document is padded to that many bytes (req.padTo)
+	padTotal  int
 }
 
 func (g *G) hexText(b []byte, allow0x bool) string {
@@ -195,6 +197,9 @@ func (g *G) request(a *act) *req {
 	if a.txid == 0 && g.r.Bool() {
 		r.omit["TransactionID"] = true
 	}
+	if a.padTotal > 0 {
+		r.padTo(a.padMethod, a.padTotal)
+	}
 	return r
 }
 
@@ -241,7 +246,7 @@ func (g *G) run(t *table, r *req, intent, kind, key string, extra map[string]int
 func (g *G) runOn(h http.Handler, t *table, r *req, intent, kind, key string, extra map[string]interface{}) answer {
 	body := r.body()
 	ans := send(h, body)
-	rp := map[string]interface{}{"api": "joinserver.NewHandler(config).ServeHTTP (POST body)", "body": body, "config": t.replay(), "observed": ans.summary(), "intent": intent}
+	rp := map[string]interface{}{"api": "joinserver.NewHandler(config).ServeHTTP (POST body)", "body": r.replayBody(body), "config": t.replay(), "observed": ans.summary(), "intent": intent}
 	for k, v := range extra {
 		rp[k] = v
 	}
@@ -282,7 +287,7 @@ func (g *G) activationOn(h http.Handler, t *table, a *act, kind, prefix string, 
 	}
 	body := r.body()
 	ans := send(h, body)
-	rp := map[string]interface{}{"api": "joinserver.NewHandler(config).ServeHTTP (POST body)", "body": body, "config": t.replay(), "observed": ans.summary(), "intent": a.intent()}
+	rp := map[string]interface{}{"api": "joinserver.NewHandler(config).ServeHTTP (POST body)", "body": r.replayBody(body), "config": t.replay(), "observed": ans.summary(), "intent": a.intent()}
 	for k, v := range extra {
 		rp[k] = v
 	}
@@ -356,6 +361,7 @@ func main() {
 	g.homeNS(thorough)
 	g.histories(thorough)
 	g.errorPaths(thorough)
+	g.sizeLadder(thorough)
 	g.optionalConfig(thorough)
 	g.goOnly(thorough)
 	g.concurrent(thorough)
